@@ -724,6 +724,7 @@ func (prop) ExtraPhase(tier string, seed uint64, deadline time.Time) (*driver.Ex
 	}
 	runs, nprog := 0, 0
 	faultRuns, faultsFired := 0, 0
+	detChecks := 0
 	hashes := map[string]bool{}
 	perProg := map[string]int{}
 	var sample any
@@ -775,6 +776,13 @@ func (prop) ExtraPhase(tier string, seed uint64, deadline time.Time) (*driver.Ex
 				perProg[p.Name]++
 				hashes[p.Name+out] = true
 				cls, det := judgeB(p, out, end)
+				if k%25 == 0 {
+					// determinism self-check: the same schedule seed in a second process
+					if out2, _ := runSchedule(bin, ss, sp, threadLimit[p.Name], fc); out2 != out {
+						return nil, fmt.Errorf("layer B: schedule seed %d of program %s does not replay (outputs of two processes differ)", ss, p.Name)
+					}
+					detChecks++
+				}
 				if strings.HasPrefix(cls, "infra-") {
 					return nil, fmt.Errorf("layer B: %s", det)
 				}
@@ -800,6 +808,7 @@ func (prop) ExtraPhase(tier string, seed uint64, deadline time.Time) (*driver.Ex
 	er.Coverage["schedules_run"] = runs
 	er.Coverage["schedules_per_program_kind"] = perProg
 	er.Coverage["distinct_outputs"] = len(hashes)
+	er.Coverage["schedules_run_twice_with_identical_output"] = detChecks
 	er.Coverage["faults"] = map[string]int{"schedules_with_a_failing_pthread_create_configured": faultRuns, "pthread_create_failures_fired": faultsFired}
 	er.Coverage["sample"] = sample
 	er.Coverage["components"] = "real: llgo lowering of the go statement and thread start, llgo-compiled sema_llgo.go under the real std sync; stub: pthread mutex/cond/once/sem and thread scheduling (toolchain/libdetsched.c); sync/atomic instructions are never preempted (indivisibility not exercised)"
